@@ -116,7 +116,17 @@ def fuzz(acc, seed, runs):
     """Coverage-guided layer (atheris); skipped (and counted) when atheris is unavailable."""
     from ..fuzzing import run_atheris
 
-    run_atheris(acc, sys.modules[MOD], "text", lambda data: {"text": data.decode("ascii", "ignore")}, seed, runs, max_len=40, layer="atheris-bytes")
+    run_atheris(acc, sys.modules[MOD], "text", _decode_tokens, seed, runs, max_len=24, layer="atheris-tokens", seeds=[bytes([1, 20, 12, 21]), bytes([4, 20, 12, 21, 12, 22]), bytes([2, 20, 12, 13])], ascii_only=False)
+
+
+_TOKENS = [">=", "<=", "==", "!=", "~=", "===", ">", "<", ",", "||", " ", "<empty>", ".", "*", "!", "+", "-", "_", "v", "a",
+           "0", "1", "2", "3", "9", "10", "b", "rc", "c", "post", "dev", "alpha", "pre", "r", "rev", "x", ".*", "01", "1!", ".0", ".post1", ".dev0", "a1"]
+
+
+def _decode_tokens(data: bytes):
+    """Structure-aware layer: every byte picks a token, so that mutations stay inside the specifier grammar's
+    alphabet and coverage feedback comes from dep-logic's own version arithmetic rather than from C regexes."""
+    return {"text": "".join(_TOKENS[b % len(_TOKENS)] for b in data)}
 
 
 def reference_accepts(text: str):
